@@ -378,8 +378,12 @@ def impl(case):
             sg.output_vcf(bps, ["1", "2"], str(s / "model.dat"), str(s / "ref.vcf.gz"), str(s / "info.tab"), None, True, False, False, str(o / "c.vcf"), SD.silent_log())
 
         res["api_error"] = C.guarded(api)
-        bp_text = lambda f: text(o / (f + ".bp")) if (o / (f + ".bp")).exists() else f"no breakpoints file at the documented place ({f}.bp)"
-        res["out"] = [(bp_text(f), read_vcf(o / (f + ".vcf"))) if (o / (f + ".vcf")).exists() else None for f in (stem, stem, "c")]
+        from pathlib import Path
+
+        # the command's breakpoints are looked for where the Lean model of its --out handling puts them (OutPrefix.bpPrefix)
+        cli_bp = Path(C.model_bp_prefix(o / (stem + ".vcf")) + ".bp")
+        bp_text = lambda pth: text(pth) if pth.exists() else f"no breakpoints file at the documented place ({pth.name})"
+        res["out"] = [(bp_text(bpf), read_vcf(o / (f + ".vcf"))) if (o / (f + ".vcf")).exists() else None for f, bpf in ((stem, cli_bp), (stem, cli_bp), ("c", o / "c.bp"))]
     elif k == "karyogram":
         import contextlib
         import io
@@ -531,11 +535,11 @@ def describe(case, obs):
 CHECK = Check(
     id="C19",
     title="CLI and Python entry points agree; list-in-file options equal repeated options",
-    theorems=["C19.samples_file_eq_repeated", "C19.ids_file_eq_repeated", "C19.both_is_usage_error", "C19.empty_is_none", "C19.unknown_ids_dropped", "C19.file_holds_names", "C19.file_holds_names_other_line_ends", "C19.final_newline_is_not_information", "C19.splitlines_cut_names_before_fix", "C19.samples_file_eq_repeated_end_to_end", "C19.every_spelling_parses_to_its_meaning", "C19.spellings_are_interchangeable"],
+    theorems=["C19.samples_file_eq_repeated", "C19.ids_file_eq_repeated", "C19.both_is_usage_error", "C19.empty_is_none", "C19.unknown_ids_dropped", "C19.file_holds_names", "C19.file_holds_names_other_line_ends", "C19.final_newline_is_not_information", "C19.splitlines_cut_names_before_fix", "C19.samples_file_eq_repeated_end_to_end", "C19.every_spelling_parses_to_its_meaning", "C19.spellings_are_interchangeable", "C19.breakpoints_prefix_of_out", "C19.breakpoints_prefix_without_ending"],
     sections=[
         Section(
             name="cli_vs_api",
-            theorems=["C19.samples_file_eq_repeated", "C19.ids_file_eq_repeated", "C19.both_is_usage_error", "C19.empty_is_none", "C19.unknown_ids_dropped"],
+            theorems=["C19.samples_file_eq_repeated", "C19.ids_file_eq_repeated", "C19.both_is_usage_error", "C19.empty_is_none", "C19.unknown_ids_dropped", "C19.breakpoints_prefix_of_out", "C19.breakpoints_prefix_without_ending"],
             gen=gen,
             impl=impl,
             oracle=oracle,
